@@ -17,6 +17,7 @@ def check(ctx):
     repo = ctx.repo
     P = repo.cls(POLY, "Polygon")
     D = repo.cls(DEV, "Device")
+    ctx.rule("R18.7", "set operations and copies return a new object, never the receiver (also for zero operands)", 5)
     ctx.rule("R18.6", "the mesh shared between a device and its copies is never modified in place", 1)
     ctx.rule("R18.1", "operators, set-operation methods, from_* constructors and _join_via agree on the operation name", 10)
     ctx.rule("R18.2", "with an inplace flag every store goes through the alias `self if inplace else self.copy()`; geometry is computed from self", 4)
@@ -32,20 +33,27 @@ def check(ctx):
                consequence=f"`a {'+-*'[list(ops).index(d)]} b` computes a different set operation than documented")
     for m in ("union", "intersection", "difference"):
         f = P.methods[m]
-        jv = [n for n in ast.walk(f.node) if isinstance(n, ast.Call) and norm(n.func) == "self._join_via"]
-        ok = len(jv) == 1 and len(jv[0].args) == 2 and isinstance(jv[0].args[1], ast.Constant) and jv[0].args[1].value == m
-        rec = [n for n in ast.walk(f.node) if isinstance(n, ast.Call) and isinstance(n.func, ast.Attribute) and n.func.attr == m
-               and isinstance(n.func.value, ast.Call)]
-        ok = ok and len(rec) == 1
-        pc = [n for n in ast.walk(f.node) if isinstance(n, ast.Call) and norm(n.func) == "Polygon"]
-        kw = {k.arg: norm(k.value) for k in pc[0].keywords} if pc else {}
-        ok = ok and kw.get("name") == "name or self.name" and kw.get("mesh") == "self.mesh"
-        empty = [n for n in own_nodes(f.node) if isinstance(n, ast.If) and norm(n.test) == "not others"
-                 and [norm(x.value) for x in n.body if isinstance(x, ast.Return)] == ["self.copy()"]]
-        ctx.ob("R18.1", f"Polygon.{m}: _join_via(first, '{m}'), recursion on .{m}(*rest), keeps name/mesh, no operands -> copy",
-               ok and len(empty) == 1, detail={"join": [norm(j) for j in jv], "kwargs": kw}, where=f.fq, construct=m, loc=loc(f, f.node),
-               message=f"Polygon.{m} dispatches {[norm(j) for j in jv]} with {kw}",
-               consequence=f"{m} of several polygons applies another operation to the later operands or loses the name")
+        dele = _delegation(P, f, m)
+        if dele is not None:
+            ok_d, det_d = dele
+            ctx.ob("R18.1", f"Polygon.{m}: delegates to a loop helper that applies '{m}' to every operand in order, keeping name/mesh", ok_d,
+                   detail=det_d, where=f.fq, construct=m, loc=loc(f, f.node), message=f"Polygon.{m} delegates as {det_d}",
+                   consequence=f"{m} of several polygons applies another operation to the later operands or loses the name")
+        else:
+            jv = [n for n in ast.walk(f.node) if isinstance(n, ast.Call) and norm(n.func) == "self._join_via"]
+            ok = len(jv) == 1 and len(jv[0].args) == 2 and isinstance(jv[0].args[1], ast.Constant) and jv[0].args[1].value == m
+            rec = [n for n in ast.walk(f.node) if isinstance(n, ast.Call) and isinstance(n.func, ast.Attribute) and n.func.attr == m
+                   and isinstance(n.func.value, ast.Call)]
+            ok = ok and len(rec) == 1
+            pc = [n for n in ast.walk(f.node) if isinstance(n, ast.Call) and norm(n.func) == "Polygon"]
+            kw = {k.arg: norm(k.value) for k in pc[0].keywords} if pc else {}
+            ok = ok and kw.get("name") == "name or self.name" and kw.get("mesh") == "self.mesh"
+            empty = [n for n in own_nodes(f.node) if isinstance(n, ast.If) and norm(n.test) == "not others"
+                     and [norm(x.value) for x in n.body if isinstance(x, ast.Return)] == ["self.copy()"]]
+            ctx.ob("R18.1", f"Polygon.{m}: _join_via(first, '{m}'), recursion on .{m}(*rest), keeps name/mesh, no operands -> copy",
+                   ok and len(empty) == 1, detail={"join": [norm(j) for j in jv], "kwargs": kw}, where=f.fq, construct=m, loc=loc(f, f.node),
+                   message=f"Polygon.{m} dispatches {[norm(j) for j in jv]} with {kw}",
+                   consequence=f"{m} of several polygons applies another operation to the later operands or loses the name")
         fc = P.methods[f"from_{m}"]
         rets = [norm(n.value) for n in own_nodes(fc.node) if isinstance(n, ast.Return)]
         # structure (local names free): f, *r = items ; p = cls(..., points=f, ...) ; return p.<m>(*r)
@@ -195,4 +203,47 @@ def check(ctx):
            consequence="points inside holes count as inside the device (or film points are excluded)")
     from ..effects import mesh_immutable
     mesh_immutable(ctx, "R18.6", 'the mesh is the one object a device shares with its copies: modifying it in place changes the other device, whose polygons stay where they were')
+    from ..effects import fresh_results
+    fresh_results(ctx, "R18.7", [("tdgl.device.polygon", "Polygon", ["union", "intersection", "difference", "copy"]),
+                                 ("tdgl.device.device", "Device", ["copy"])],
+                  "a set operation with an empty operand list (base.difference(*notches) with notches == []) returns the original polygon: "
+                  "an in-place transformation of the 'result' silently moves the original (and any device built from it)")
     ctx.decline("areas under affine maps, agreement of set operations with point-wise membership, boundary conventions: computed by shapely / matplotlib")
+
+
+def _delegation(P, f, m):
+    """Second accepted shape of a set operation: `return self.<helper>(others, "<m>", ...name...)` with a helper of the form
+    `acc = self | self.copy(); for o in <others>: acc = Polygon(name=name or self.name, points=acc._join_via(o, <operation>), mesh=self.mesh); return acc`.
+    Returns None when the method is not a delegation (the recursive shape is judged instead)."""
+    rets = [n.value for n in own_nodes(f.node) if isinstance(n, ast.Return)]
+    if len(rets) != 1 or not isinstance(rets[0], ast.Call) or not isinstance(rets[0].func, ast.Attribute) \
+            or norm(rets[0].func.value) != "self" or rets[0].func.attr not in P.methods or rets[0].func.attr == "copy":
+        return None
+    call = rets[0]
+    h = P.methods[call.func.attr]
+    hp = [a.arg for a in h.node.args.args[1:]]
+    bound = {}
+    for i, a in enumerate(call.args):
+        if i < len(hp):
+            bound[hp[i]] = a
+    for k in call.keywords:
+        bound[k.arg] = k.value
+    det = {"helper": h.qual, "arguments": {k: norm(v) for k, v in bound.items()}}
+    opp = [k for k, v in bound.items() if isinstance(v, ast.Constant) and v.value == m]
+    seqp = [k for k, v in bound.items() if norm(v) == "others"]
+    loops = [n for n in own_nodes(h.node) if isinstance(n, ast.For)]
+    if len(opp) != 1 or len(seqp) != 1 or len(loops) != 1 or norm(loops[0].iter) != seqp[0] or not isinstance(loops[0].target, ast.Name):
+        return False, det
+    lp = loops[0]
+    body = [s_ for s_ in lp.body if not isinstance(s_, ast.Expr)]
+    if len(body) != 1 or not isinstance(body[0], ast.Assign) or not isinstance(body[0].targets[0], ast.Name) or not isinstance(body[0].value, ast.Call):
+        return False, det
+    acc = body[0].targets[0].id
+    c = body[0].value
+    kw = {k.arg: norm(k.value) for k in c.keywords}
+    det["loop_body"] = norm(body[0])[:160]
+    ok = norm(c.func) == "Polygon" and kw.get("points") == f"{acc}._join_via({lp.target.id}, {opp[0]})" and kw.get("mesh") == "self.mesh" \
+        and kw.get("name") in ("name or self.name",) and bound.get("name") is not None and norm(bound["name"]) == "name"
+    hr = [norm(n.value) for n in own_nodes(h.node) if isinstance(n, ast.Return)]
+    ok = ok and hr and all(r == acc for r in hr)
+    return bool(ok), det
